@@ -36,9 +36,13 @@ def gen_cases(tier, seed):
         for wop in ("stack", "concat", "sum-of-terms"):
             cases.append({"kind": "linear-cost", "n": n[0], "n2": n[1], "shape": "wide:" + wop, "seed": int(rng.integers(2 ** 31))})
     for n in (1000, 10000) + ((100000,) if tier == "thorough" else (30000,)):
-        for mode in ("no_grad", "non-requiring", "detached-mix", "no_grad-with-parameter", "inside-retain_grads", "no_grad-linear"):
+        for mode in ("no_grad", "non-requiring", "detached-mix", "no_grad-with-parameter", "inside-retain_grads", "no_grad-linear", "changing-scalars"):
             cases.append({"kind": "untracked", "n": n, "mode": mode, "seed": int(rng.integers(2 ** 31))})
     cases.append({"kind": "weakref", "seed": 0})
+    for n in (300, 1000) + ((3000,) if tier == "thorough" else ()):
+        cases.append({"kind": "detach-segments", "n": n, "seed": int(rng.integers(2 ** 31))})
+    if tier == "thorough":
+        cases.append({"kind": "cpu-cost", "n": 100000, "n2": 400000, "seed": int(rng.integers(2 ** 31))})
     return cases
 
 
@@ -180,6 +184,9 @@ def run_case(ns, mon, c):
                 return w + par                              # the loop-carried value is a direct operand together with a requiring parameter
             if c["mode"] == "no_grad-linear":
                 return sg.linear(w, W)                      # (1,8) carried through a layer whose weight requires grad
+            if c["mode"] == "changing-scalars":
+                k_ = body.k = getattr(body, "k", 1) + 1     # running average with a different Python number at every step
+                return w * (1.0 - 1.0 / k_) + gfix * (1.0 / k_) - 1e-3 / k_
             return w - gfix * 0.001
         step = max(1, n // 10)
         if c["mode"] == "inside-retain_grads":
@@ -209,6 +216,71 @@ def run_case(ns, mon, c):
         mon.drain()
         return {"key": ("untracked", c["mode"], n), "viol": viol, "counters": counters, "note": f"live-tensor deltas over {n} untracked updates ({c['mode']}): {samples}",
                 "cover": {"scenarios": [f"untracked:{c['mode']}"]}}
+    elif kind == "detach-segments":
+        # truncated back-propagation: tracked segments separated by detach(); neither memory nor the work of a segment's backward may grow
+        W = T(np.eye(6) * 0.9, requires_grad=True)
+        h = T(rng.standard_normal((1, 6)))
+        gc.collect()
+        base = mon.live_count()
+        live, work = [], []
+        step = max(1, c["n"] // 10)
+        for i in range(c["n"]):
+            h2 = sg.tanh(sg.linear(h, W))
+            loss = (h2 * h2).sum()
+            cnt = [0]
+
+            def prof(frame, event, arg):
+                if event == "call":
+                    cnt[0] += 1
+            sys.setprofile(prof)
+            try:
+                loss.backward()
+            finally:
+                sys.setprofile(None)
+            W.zero_()
+            h = h2.detach()
+            del h2, loss
+            if (i + 1) % step == 0:
+                live.append(mon.live_count() - base)
+                work.append(cnt[0])
+        counters["detach_segments"] = c["n"]
+        counters["live_count_samples"] = len(live)
+        if max(live) - min(live) > 8 or max(live) > 40:
+            viol.append(V("untracked:live-tensors-grow:detach-segments", f"live Tensor objects grow over detach()-separated segments: {live}", n=c["n"]))
+        if max(work) > 1.5 * min(work) + 50:
+            viol.append(V("cost:segment-backward-grows-after-detach", f"Python calls of one segment's backward grow with the number of earlier (detached) segments: {work}"))
+        mon.drain()
+        return {"key": ("detach-segments", c["n"]), "viol": viol, "counters": counters, "note": f"detach segments n={c['n']}: live {live}, backward calls {work}",
+                "cover": {"scenarios": ["detach-segments"]}}
+    elif kind == "cpu-cost":
+        # CPU time (thread_time, gc disabled) of backward on chains of n and 4n ops; used only in the thorough tier and only as a
+        # violation when the super-linear ratio is reproduced by a second, independent measurement (C-level quadratic work such as
+        # list.insert(0, .) is invisible to Python-call counts)
+        import time
+
+        def measure(n):
+            x = T(np.arange(1.0, 7.0).reshape(2, 3), requires_grad=True)
+            y, _ = build_chain(ns, x, n, gen.rng_for(c["seed"], "cpu", n))
+            out = y.sum()
+            gc.collect(); gc.disable()
+            try:
+                t0 = time.thread_time()
+                getattr(mon, "orig_backward", ns.Tensor.backward)(out)
+                return time.thread_time() - t0
+            finally:
+                gc.enable()
+        ratios = []
+        for rep in range(2):
+            t1, t2 = measure(c["n"]), measure(c["n2"])
+            ratios.append(t2 / max(t1, 1e-6))
+            if ratios[-1] <= 1.75 * (c["n2"] / c["n"]):
+                break
+        counters["cpu_cost_measurements"] = len(ratios)
+        note = f"cpu time ratio backward({c['n2']})/backward({c['n']}) = {[round(r, 2) for r in ratios]} (linear: {c['n2'] / c['n']:.1f})"
+        if len(ratios) == 2 and min(ratios) > 1.75 * (c["n2"] / c["n"]):
+            viol.append(V("cost:super-linear:cpu-time", "CPU time of backward grows faster than linearly with the graph size (reproduced twice): " + note))
+        mon.drain()
+        return {"key": ("cpu-cost", c["n"]), "viol": viol, "counters": counters, "note": note, "cover": {"scenarios": ["cpu-cost"]}}
     else:
         n = 0
         for mode in ("no_grad", "non-requiring"):
